@@ -226,6 +226,8 @@ def verify_commutative_reducer(facts, body):
     associative, and has no other order-dependent effect.  Returns (ok, why)."""
     v = Vals(body)
     heads = loop_next_sites(body, v)
+    if not heads:
+        return _verify_fold_reducer(facts, body, v)
     if len(heads) != 1:
         return False, "expected exactly one iterator loop, found %d" % len(heads)
     nbb, sbb, some_t, none_t, nt = heads[0]
@@ -280,6 +282,52 @@ def verify_commutative_reducer(facts, body):
     return True, "accumulators %s updated only by commutative integer ops" % accs
 
 
+def _verify_fold_reducer(facts, body, v):
+    """The same reducer written as `seq.fold(init, |acc, x| acc (+) g(x))` with (+) a commutative, associative integer operation."""
+    folds = [(bi, t) for bi, t in body.calls() if callee_is(t, trait="Iterator", name="fold")]
+    if len(folds) != 1 or len(folds[0][1]["args"]) != 3:
+        return False, "no iterator loop and no single fold"
+    t = folds[0][1]
+    cr = v.root(t["args"][2])
+    rv = v.rvalue_of(cr) if cr.kind == "local" else None
+    clos = facts.mir.get(rv["closure"]) if rv and rv["k"] == "aggregate" and rv.get("agg") == "closure" else None
+    if clos is None:
+        return False, "fold closure not found"
+    if any(callee_is(t2, trait="Iterator") for _b, t2 in clos.calls()) or loop_next_sites(clos, Vals(clos)):
+        return False, "fold closure iterates itself"
+    tyk = facts.ty(clos.local_ty(0)) or {}
+    if tyk.get("k") != "prim" or tyk.get("name") in ("f64", "f32"):
+        return False, "fold accumulator is not an integer"
+    vc = Vals(clos)
+    acc_root = ("arg", 2)
+    ok = False
+    for bi, si, st in pat.stmts(clos):
+        if st["place"]["l"] == 0 and not st["place"]["p"]:
+            r_ = st["rv"]
+            if r_["k"] == "use" and r_["op"]["k"] in ("copy", "move") and not r_["op"]["place"]["p"]:
+                d = vc.def_rvalue(r_["op"]["place"]["l"])
+                r_ = d or r_
+            elif r_["k"] == "use" and r_["op"]["k"] in ("copy", "move") and r_["op"]["place"]["p"] and r_["op"]["place"]["p"][0]["k"] == "field":
+                d = vc.def_rvalue(r_["op"]["place"]["l"])     # checked op: (value, overflow).0
+                r_ = d or r_
+            if r_["k"] == "binop" and r_["op"] in COMMUTATIVE_INT_OPS:
+                sa = vc.root(r_["a"]).base == acc_root and not vc.root(r_["a"]).path
+                sb_ = vc.root(r_["b"]).base == acc_root and not vc.root(r_["b"]).path
+                if sa != sb_:
+                    ok = True
+                    continue
+            return False, "fold closure does not return acc (+) g(x) with a commutative integer operation"
+    # the accumulator parameter must not be used anywhere else (e.g. as an argument of g)
+    uses = 0
+    for bi, t2 in clos.calls():
+        for a in t2["args"]:
+            if a["k"] in ("copy", "move") and vc.root(a).base == acc_root:
+                uses += 1
+    if not ok or uses:
+        return False, "fold closure uses its accumulator outside the commutative update"
+    return True, "fold with a commutative integer update of the accumulator"
+
+
 def hash_order_isolation(ctx, R, rule, roots):
     """Order taint from iterating hash containers must not reach any function result reachable from `roots`
     except through verified commutative reducers."""
@@ -291,7 +339,7 @@ def hash_order_isolation(ctx, R, rule, roots):
         ok, why = (False, "")
         if b.arg_count >= 1 and not b.j.get("root"):
             v = Vals(b)
-            if len(loop_next_sites(b, v)) == 1:
+            if len(loop_next_sites(b, v)) == 1 or (not loop_next_sites(b, v) and any(callee_is(t_, trait="Iterator", name="fold") for _bi, t_ in b.calls())):
                 ok, why = verify_commutative_reducer(f, b)
         if ok:
             reducers[key] = why
